@@ -6,6 +6,9 @@ import DdoModel.Engines.ExModelM2s
 import DdoModel.Engines.ExModelAlp
 import DdoModel.Engines.ExModelPsp
 import DdoModel.Engines.ExModelMcp
+import DdoModel.Engines.ExModelGolomb
+import DdoModel.Engines.ExModelSrflp
+import DdoModel.Engines.ExModelTalentsched
 /-! Driver engine `exmodel` (C16, knapsack and misp): every observation the harness made on the example's own `Problem`,
     `Relaxation` and `StateRanking` implementations (compiled into the harness from the example's source file) is
     recomputed with the Lean model `KnapsackDp.lean` — the model the well-formedness theorems of `KnapsackModel.lean`
@@ -211,6 +214,9 @@ def exmodelEngine (c i : List String) : Option Res := do
   | [["alp"], toks, _] => alpCase toks i
   | [["psp"], toks, _] => pspCase toks i
   | [["mcp"], toks, _] => mcpCase toks i
+  | [["golomb"], toks, _] => golombCase toks i
+  | [["srflp"], toks, opts] => srflpCase toks opts i
+  | [["talentsched"], toks, u] => talentschedCase toks u i
   | _ => none
 
 end Ddo.Engines
